@@ -46,6 +46,7 @@ type c14Reader struct {
 	frames []c14Frame
 	conn   net.Conn
 	conns  int
+	fault  string   // how the next command's requests are answered: "", "status", "errmsg", "wrongtype", "garbage"
 	silent net.Conn // the connection on which the reader has stopped answering (a dead peer that keeps the socket open)
 }
 
@@ -120,6 +121,36 @@ func (r *c14Reader) serve(conn net.Conn) {
 			r.mu.Lock()
 			r.frames = append(r.frames, c14Frame{T: typ, P: hex.EncodeToString(payload)})
 			r.mu.Unlock()
+		}
+		r.mu.Lock()
+		fault := r.fault
+		r.mu.Unlock()
+		if fault != "" && !isFence && typ != 46 && typ != 47 && typ != 14 && typ != 72 {
+			// answer with a fault, the connection stays up
+			statusErr := []byte{0x01, 0x1F, 0x00, 0x08, 0x00, 0x65, 0x00, 0x00} // LLRPStatus M_FieldError
+			rtyp := typ + 10
+			if typ == 1023 {
+				rtyp = 1023
+			}
+			var ferr error
+			switch {
+			case fault == "status" && typ != 1023:
+				ferr = c14WriteFrame(conn, ver, rtyp, id, statusErr)
+			case fault == "wrongtype":
+				wt := uint16(11)
+				if rtyp == 11 {
+					wt = 12
+				}
+				ferr = c14WriteFrame(conn, ver, wt, id, c14StatusOK)
+			case fault == "garbage":
+				ferr = c14WriteFrame(conn, ver, rtyp, id, []byte{0xFF, 0xFF, 0xFF})
+			default: // "errmsg" (and "status" for CustomMessage, whose reply has no LLRPStatus): ERROR_MESSAGE
+				ferr = c14WriteFrame(conn, ver, 100, id, []byte{0x01, 0x1F, 0x00, 0x08, 0x00, 0x6D, 0x00, 0x00})
+			}
+			if ferr != nil {
+				return
+			}
+			continue
 		}
 		var err error
 		switch {
@@ -197,6 +228,7 @@ type c14Case struct {
 	K      string     `json:"k"` // "init", "r", "w", "reconnect"
 	Reqs   []c14Req   `json:"reqs"`
 	Params []c14Param `json:"params"`
+	Fault  string     `json:"fault"`
 }
 
 type c14Answer struct {
@@ -465,7 +497,13 @@ func TestVerifC14(t *testing.T) {
 				ans.Consts = dumpConsts(dev)
 			}
 		default:
+			rd.mu.Lock()
+			rd.fault = c.Fault
+			rd.mu.Unlock()
 			ans = runCase(c)
+			rd.mu.Lock()
+			rd.fault = ""
+			rd.mu.Unlock()
 			ans.Fence = fence()
 			ans.Frames = rd.take()
 		}
